@@ -119,7 +119,9 @@ def case_st(draw):
                          "allowed": draw(st.sampled_from([None, ["rsa-a"], []]))})
     return {"rules": rules, "via": draw(st.sampled_from(["object", "toml"])), "target": L, "is_dir": is_dir,
             "path": sp["path"], "labels": sp["labels"], "cert": cert, "prior": prior,
-            "tls": draw(st.sampled_from(["1.3", "1.2"]))}
+            "tls": draw(st.sampled_from(["1.3", "1.2"])),
+            # (TOML only) the capsule is served through [[locations]] routing instead of the plain document root
+            "locations": draw(st.sampled_from([None, None, "plain", "more-indices"]))}
 
 
 def covers(prefix: str, L: str):
@@ -174,6 +176,10 @@ def _fetch(case, via):
         doc = {"server": {"host": "127.0.0.1", "port": 1965, "document_root": root,
                           "certfile": srvcert.cert_path, "keyfile": srvcert.key_path},
                "certificate_auth": {"paths": []}}
+        if case.get("locations"):
+            # the same capsule served through location routing; the location also knows a further index name
+            doc["locations"] = [{"prefix": "/", "handler": "static", "document_root": root, "enable_directory_listing": True,
+                                 "default_indices": ["index.gmi", "index.gemini", "home.gmi"] if case["locations"] == "more-indices" else ["index.gmi", "index.gemini"]}]
         for r in rules:
             e = {"prefix": r["prefix"], "require_cert": r["require_cert"]}
             if r["allowed"] is not None:
